@@ -30,7 +30,10 @@ Inductive case :=
 (* DeFrame frame: Some (original size, length of the compressed data) *)
 | CDeframe (frame : bytes) (o : option (Z * Z))
 (* Decompress osize cd, where lz4.UncompressBlock(cd, make([]byte, osize)) returned lz *)
-| CDecomp (osize : Z) (cd : bytes) (lz : option bytes) (o : option bytes).
+| CDecomp (osize : Z) (cd : bytes) (lz : option bytes) (o : option bytes)
+(* TL2 size prefix of length l: TL2WriteSize wrote w, TL2CalculateSize / TL2PutSize returned calc / put, and
+   TL2ParseSize (w ++ [0xAA]) returned parsed = Some (length, remaining byte count) *)
+| CSize (l : Z) (w : bytes) (calc put : Z) (parsed : option (Z * Z)).
 
 Definition item_desc (tid : nat) (boxed : bool) : desc :=
   let '(tag, d) := nth tid schema (0, DStruct []) in
@@ -88,6 +91,12 @@ Definition ok (c : case) : bool :=
       match decompress (fun _ _ => lz) max_uncompressed_bucket_size osize cd, o with
       | None, None => true
       | Some a, Some b => bytes_eqb a b
+      | _, _ => false
+      end
+  | CSize l w calc put parsed =>
+      bytes_eqb (write_size l) w && (zlen w =? calc) && (zlen w =? put) &&
+      match read_size (w ++ [170]), parsed with
+      | Some (l', r), Some (l'', n) => (l' =? l) && (l'' =? l) && (zlen r =? n) && (n =? 1)
       | _, _ => false
       end
   end.
